@@ -249,7 +249,52 @@ func errInfo(je *jerr.JApiError) (ei *proto.ErrInfo) {
 	return ei
 }
 
+// sharedOpts: Option values that live as long as the process and are handed to every build that asks for the same kinds.
+var (
+	sharedOptsMu sync.Mutex
+	sharedOpts   = map[string]core.Option{}
+)
+
+func sharedOpt(kinds []string) (core.Option, error) {
+	key := strings.Join(kinds, ",")
+	sharedOptsMu.Lock()
+	defer sharedOptsMu.Unlock()
+	if o, ok := sharedOpts[key]; ok {
+		return o, nil
+	}
+	var dd []directive.Enumeration
+	for _, b := range kinds {
+		if b == "HTTP-response-code" {
+			dd = append(dd, directive.HTTPResponseCode)
+			continue
+		}
+		e, err := directive.NewDirectiveType(b)
+		if err != nil {
+			return nil, fmt.Errorf("unknown banned directive %q", b)
+		}
+		dd = append(dd, e)
+	}
+	o := core.WithBannedDirectives(dd...)
+	sharedOpts[key] = o
+	return o, nil
+}
+
+func sharedBanOpts(lists [][]string) ([]core.Option, error) {
+	var oo []core.Option
+	for _, l := range lists {
+		o, err := sharedOpt(l)
+		if err != nil {
+			return nil, err
+		}
+		oo = append(oo, o)
+	}
+	return oo, nil
+}
+
 func bannedOpts(j *proto.Job) ([]core.Option, error) {
+	if len(j.SharedBan) > 0 {
+		return sharedBanOpts(j.SharedBan)
+	}
 	if len(j.Banned) == 0 {
 		return nil, nil
 	}
@@ -506,6 +551,31 @@ func runJob(j *proto.Job) (res *proto.Result) {
 		for _, op := range j.Ops {
 			res.Outputs = append(res.Outputs, b.call(op, j.HashOnly))
 		}
+	}
+	for _, lists := range j.OptSeq {
+		jj := *j
+		jj.SharedBan, jj.Banned = lists, nil
+		if len(lists) == 0 {
+			jj.SharedBan = nil
+		}
+		bb := build(&jj, "build")
+		var outs []proto.Output
+		if bb.accepted {
+			for _, op := range j.Ops {
+				outs = append(outs, bb.call(op, true))
+			}
+		}
+		m := sig(bb, outs)
+		keys := make([]string, 0, len(m))
+		for k := range m {
+			keys = append(keys, k)
+		}
+		sort.Strings(keys)
+		var sb strings.Builder
+		for _, k := range keys {
+			sb.WriteString(k + "=" + m[k] + ";")
+		}
+		res.OptSigs = append(res.OptSigs, sb.String())
 	}
 	if j.Repeat > 1 {
 		first := sig(b, res.Outputs)
